@@ -142,6 +142,16 @@ impl<'m> Checker<'m> {
 
     // ---------------------------------------------------------------------------------------------
 
+    /// type of an already walked sub-expression, without recording problems or counting it again
+    fn expr_quiet(&mut self, e: &ir::Expression) -> CR {
+        let problems = self.problems.len();
+        let counted = self.expressions_checked;
+        let r = self.expr(e);
+        self.problems.truncate(problems);
+        self.expressions_checked = counted;
+        r
+    }
+
     pub fn expr(&mut self, e: &ir::Expression) -> CR {
         self.expressions_checked += 1;
         use ir::Expression as E;
@@ -526,6 +536,7 @@ impl<'m> Checker<'m> {
         }
         for (i, (t, p)) in rest.iter().zip(&sig.param_types).enumerate() {
             let Ok(t) = t else { continue };
+            let arg_expr = &args[skip + i];
             // template parameter types are resolved per instantiation; object methods take object typed arguments
             if matches!(self.layer(p.type_id), ir::TypeLayer::TemplateParam(_) | ir::TypeLayer::Object(_)) {
                 continue;
@@ -541,7 +552,28 @@ impl<'m> Checker<'m> {
                 }
                 ir::InputModifier::Out | ir::InputModifier::InOut => {
                     if !t.lvalue {
-                        self.problem("out-argument-not-lvalue", format!("argument {} of {}", i, fname));
+                        // an implicit conversion made explicit as a Cast node yields an rvalue (Expression::get_type): classify it by
+                        // what is converted, so that a known instance does not hide a different one
+                        let mut class = "out-argument-not-lvalue".to_string();
+                        if let ir::Expression::Cast(_, inner) = arg_expr {
+                            if let Ok(ti) = self.expr_quiet(inner) {
+                                if ti.lvalue {
+                                    let shape = |me: &Self, ty: ir::TypeId| -> (String, Option<ir::TypeId>) {
+                                        match me.layer(ty) {
+                                            ir::TypeLayer::Scalar(_) => ("scalar".to_string(), Some(ty)),
+                                            ir::TypeLayer::Vector(inner, n) => (format!("vector{}", n), Some(me.m.type_registry.remove_modifier(inner))),
+                                            ir::TypeLayer::Matrix(inner, a, b) => (format!("matrix{}x{}", a, b), Some(me.m.type_registry.remove_modifier(inner))),
+                                            _ => ("other".to_string(), None),
+                                        }
+                                    };
+                                    let (from, fs) = shape(self, ti.ty);
+                                    let (to, ts) = shape(self, t.ty);
+                                    let scalar = if fs.is_some() && fs == ts { "same-scalar-type" } else { "other-scalar-type" };
+                                    class = format!("out-argument-is-cast-of-lvalue:{}-to-{}:{}", from, to, scalar);
+                                }
+                            }
+                        }
+                        self.problem(&class, format!("argument {} of {}", i, fname));
                     } else if t.is_const {
                         self.problem("out-argument-const", format!("argument {} of {}", i, fname));
                     }
